@@ -500,4 +500,208 @@ theorem errorsIs_ne_panic {h : Heap} (hwf : WF h) (fuel : Nat) (x y : Val) : err
   · simp
   · exact loop_ne_panic hwf y fuel x
 
+
+/-! ### allocation frames -/
+
+theorem obj_append_lt {h : Heap} (l : List Obj) {a : Nat} (ha : a < h.length) : obj (h ++ l) a = obj h a := by
+  simp [obj, List.getElem?_append_left ha]
+
+theorem obj_append_len (h : Heap) (o : Obj) : obj (h ++ [o]) h.length = o := by
+  simp [obj]
+
+theorem obj_ge {h : Heap} {a : Nat} (ha : h.length ≤ a) : obj h a = {} := by
+  simp [obj, List.getElem?_eq_none ha]
+
+/-- what a freshly allocated object must satisfy to keep the heap well-formed -/
+def GoodObj (h : Heap) (o : Obj) : Prop :=
+  (o.factoryRef = .nil ∧ o.srcErrors = []) ∨
+  (∃ r, o.factoryRef = .base r ∧ r < h.length ∧ (obj h r).factoryRef = .nil ∧ o.isFactory = false ∧
+    ∀ s ∈ o.srcErrors, isForeign s = true)
+
+theorem WF.alloc {h : Heap} (hwf : WF h) {o : Obj} (ho : GoodObj h o) : WF (h ++ [o]) := by
+  have key : ∀ a, obj (h ++ [o]) a = obj h a ∨ (a = h.length ∧ obj (h ++ [o]) a = o) := by
+    intro a
+    rcases Nat.lt_trichotomy a h.length with hlt | heq | hgt
+    · exact Or.inl (obj_append_lt _ hlt)
+    · subst heq; exact Or.inr ⟨rfl, obj_append_len h o⟩
+    · left; rw [obj_ge (by simp; omega), obj_ge (by omega)]
+  have lift : ∀ r, r < h.length → (obj h r).factoryRef = .nil → (obj (h ++ [o]) r).factoryRef = .nil := by
+    intro r hr hn; rw [obj_append_lt _ hr]; exact hn
+  constructor
+  · intro a
+    rcases key a with hk | ⟨_, hk⟩ <;> rw [hk]
+    · rcases hwf.ref a with hr | ⟨r, hr, hlt, hrr, hnf⟩
+      · exact Or.inl hr
+      · exact Or.inr ⟨r, hr, by simp; omega, lift r hlt hrr, hnf⟩
+    · rcases ho with ⟨hr, _⟩ | ⟨r, hr, hlt, hrr, hnf, _⟩
+      · exact Or.inl hr
+      · exact Or.inr ⟨r, hr, by simp; omega, lift r hlt hrr, hnf⟩
+  · intro a s
+    rcases key a with hk | ⟨_, hk⟩ <;> rw [hk]
+    · exact hwf.srcs a s
+    · rcases ho with ⟨_, hs⟩ | ⟨r, _, _, _, _, hs⟩
+      · simp [hs]
+      · exact hs s
+  · intro a
+    rcases key a with hk | ⟨_, hk⟩ <;> rw [hk]
+    · exact hwf.rootSrcs a
+    · rcases ho with ⟨_, hs⟩ | ⟨r, hr, _⟩
+      · intro _; exact hs
+      · intro hn; rw [hr] at hn; cases hn
+
+theorem origin_append_lt {h : Heap} (l : List Obj) {a : Nat} (ha : a < h.length) :
+    origin (h ++ l) a = origin h a := by
+  simp [origin, obj_append_lt l ha]
+
+theorem WF.origin_lt {h : Heap} (hwf : WF h) {a : Nat} (ha : a < h.length) : origin h a < h.length := by
+  rcases hwf.ref a with hr | ⟨r, hr, hlt, _, _⟩
+  · rw [origin_root hr]; exact ha
+  · rw [origin_derived hr]; exact hlt
+
+/-- marking a freshly allocated root as a factory (`FactoryOf`) -/
+theorem factoryOf_fresh (h : Heap) (o : Obj) (v : Val) (hv : embedded v = some h.length) :
+    factoryOf (h ++ [o]) v = h ++ [{ o with isFactory := true }] := by
+  simp [factoryOf, hv, obj_append_len]
+
+/-- the object `cloneBase` allocates -/
+def cloneObj (h : Heap) (a : Nat) (src : Val) : Obj :=
+  { extTy := none, isFactory := false,
+    factoryRef := if (obj h a).factoryRef != .nil then (obj h a).factoryRef else .base a,
+    srcErrors := if src != .nil then (obj h a).srcErrors ++ [src] else (obj h a).srcErrors }
+
+theorem cloneBase_eq (h : Heap) (recv : Val) (a : Nat) (src : Val) :
+    cloneBase h recv a src = (h ++ [cloneObj h a src], h.length) := by
+  unfold cloneBase cloneObj alloc
+  by_cases h1 : (obj h a).factoryRef = .nil <;> by_cases h2 : src = .nil <;> simp [h1, h2]
+
+theorem cloneObj_good {h : Heap} (hwf : WF h) {a : Nat} (ha : a < h.length) {src : Val}
+    (hs : src = .nil ∨ isForeign src = true) : GoodObj h (cloneObj h a src) := by
+  right
+  have hsrcs : ∀ s ∈ (cloneObj h a src).srcErrors, isForeign s = true := by
+    intro s hsm
+    unfold cloneObj at hsm
+    by_cases h2 : src = .nil
+    · simp [h2] at hsm; exact hwf.srcs a s hsm
+    · simp [h2] at hsm
+      rcases hsm with hsm | hsm
+      · exact hwf.srcs a s hsm
+      · subst hsm; rcases hs with hs | hs
+        · exact absurd hs h2
+        · exact hs
+  rcases hwf.ref a with hr | ⟨r, hr, hlt, hrr, _⟩
+  · exact ⟨a, by simp [cloneObj, hr], ha, hr, rfl, hsrcs⟩
+  · exact ⟨r, by simp [cloneObj, hr], hlt, hrr, rfl, hsrcs⟩
+
+theorem cloneObj_origin {h : Heap} (hwf : WF h) (a : Nat) (src : Val) (l : List Obj) :
+    origin (h ++ cloneObj h a src :: l) h.length = origin h a := by
+  have : obj (h ++ cloneObj h a src :: l) h.length = cloneObj h a src := by simp [obj]
+  unfold origin; rw [this]
+  rcases hwf.ref a with hr | ⟨r, hr, _, _, _⟩ <;> simp [cloneObj, hr]
+
+
+theorem GoodObj.mono {h : Heap} {o : Obj} (ho : GoodObj h o) (o' : Obj) (p : Obj) 
+    (hp : p.factoryRef = o.factoryRef ∧ p.srcErrors = o.srcErrors ∧ p.isFactory = o.isFactory) :
+    GoodObj (h ++ [o']) p := by
+  rcases ho with ⟨h1, h2⟩ | ⟨r, hr, hlt, hrr, hnf, hs⟩
+  · left; exact ⟨by rw [hp.1]; exact h1, by rw [hp.2.1]; exact h2⟩
+  · right
+    exact ⟨r, by rw [hp.1]; exact hr, by simp; omega, by rw [obj_append_lt _ hlt]; exact hrr,
+      by rw [hp.2.2]; exact hnf, by rw [hp.2.1]; exact hs⟩
+
+/-! ### the history invariant: the heap realises the specification's bookkeeping -/
+
+def O (os : List Nat) (i : Nat) : Nat := os[i]?.getD 0
+def S (ss : List (List Val)) (i : Nat) : List Val := ss[i]?.getD []
+
+theorem val_append_lt {vals : List Val} {h : Heap} (x : Val) {i : Nat} (hi : i < vals.length) :
+    World.val ⟨h, vals ++ [x]⟩ i = World.val ⟨h, vals⟩ i := by
+  simp [World.val, List.getElem?_append_left hi]
+theorem val_append_len {vals : List Val} {h : Heap} (x : Val) :
+    World.val ⟨h, vals ++ [x]⟩ vals.length = x := by
+  simp [World.val]
+theorem val_heap_irrel (h h' : Heap) (vals : List Val) (i : Nat) :
+    World.val ⟨h, vals⟩ i = World.val ⟨h', vals⟩ i := rfl
+theorem O_append_lt {os : List Nat} (k : Nat) {i : Nat} (hi : i < os.length) : O (os ++ [k]) i = O os i := by
+  simp [O, List.getElem?_append_left hi]
+theorem O_append_len (os : List Nat) (k : Nat) : O (os ++ [k]) os.length = k := by simp [O]
+theorem S_append_lt {ss : List (List Val)} (t : List Val) {i : Nat} (hi : i < ss.length) : S (ss ++ [t]) i = S ss i := by
+  simp [S, List.getElem?_append_left hi]
+theorem S_append_len (ss : List (List Val)) (t : List Val) : S (ss ++ [t]) ss.length = t := by simp [S]
+
+structure Good (w : World) (os : List Nat) (ss : List (List Val)) : Prop where
+  wf : WF w.h
+  lo : os.length = w.vals.length
+  ls : ss.length = w.vals.length
+  val : ∀ i, i < w.vals.length → ∃ a, embedded (w.val i) = some a ∧ a < w.h.length ∧
+    (obj w.h a).srcErrors = S ss i ∧
+    (∀ t, w.val i = .ext t a → (obj w.h a).factoryRef = .nil → (obj w.h a).isFactory = true) ∧
+    O os i < w.vals.length ∧ embedded (w.val (O os i)) = some (origin w.h a)
+  inj : ∀ i j a b, i < w.vals.length → j < w.vals.length → embedded (w.val i) = some a →
+    embedded (w.val j) = some b → origin w.h a = origin w.h b → O os i = O os j
+
+/-- adding one value (and possibly fresh objects) to a good world -/
+theorem Good.extend {w : World} {os : List Nat} {ss : List (List Val)} (g : Good w os ss)
+    (l : List Obj) (x : Val) (k : Nat) (t : List Val) (a' : Nat)
+    (hwf : WF (w.h ++ l))
+    (hx : embedded x = some a') (ha' : a' < (w.h ++ l).length)
+    (hsrc : (obj (w.h ++ l) a').srcErrors = t)
+    (hmark : ∀ ty, x = .ext ty a' → (obj (w.h ++ l) a').factoryRef = .nil → (obj (w.h ++ l) a').isFactory = true)
+    (hk : k ≤ w.vals.length)
+    (hlink : embedded (World.val ⟨w.h ++ l, w.vals ++ [x]⟩ k) = some (origin (w.h ++ l) a'))
+    (hinj : ∀ j b, j < w.vals.length → embedded (w.val j) = some b → origin (w.h ++ l) a' = origin w.h b → k = O os j) :
+    Good ⟨w.h ++ l, w.vals ++ [x]⟩ (os ++ [k]) (ss ++ [t]) := by
+  have hn : (w.vals ++ [x]).length = w.vals.length + 1 := by simp
+  have oldv : ∀ i, i < w.vals.length → World.val ⟨w.h ++ l, w.vals ++ [x]⟩ i = w.val i := by
+    intro i hi; rw [val_append_lt x hi]; rfl
+  have newv : World.val ⟨w.h ++ l, w.vals ++ [x]⟩ w.vals.length = x := val_append_len x
+  constructor
+  · exact hwf
+  · simp [g.lo]
+  · simp [g.ls]
+  · intro i hi
+    simp only [hn] at hi
+    by_cases hlt : i < w.vals.length
+    · obtain ⟨a, h1, h2, h3, h4, h5, h6⟩ := g.val i hlt
+      refine ⟨a, by rw [oldv i hlt]; exact h1, by simp; omega, ?_, ?_, ?_, ?_⟩
+      · rw [obj_append_lt _ h2, S_append_lt _ (by rw [g.ls]; exact hlt)]; exact h3
+      · rw [oldv i hlt, obj_append_lt _ h2]; exact h4
+      · rw [O_append_lt _ (by rw [g.lo]; exact hlt)]; simp only [hn]; omega
+      · rw [O_append_lt _ (by rw [g.lo]; exact hlt), oldv _ h5, origin_append_lt _ h2]; exact h6
+    · have : i = w.vals.length := by omega
+      subst this
+      refine ⟨a', by rw [newv]; exact hx, ha', ?_, ?_, ?_, ?_⟩
+      · rw [← g.ls, S_append_len]; exact hsrc
+      · rw [newv]; exact hmark
+      · rw [← g.lo, O_append_len]; simp only [hn]; omega
+      · rw [← g.lo, O_append_len]; exact hlink
+  · -- injectivity
+    have addr_old : ∀ i a, i < w.vals.length → embedded (w.val i) = some a → a < w.h.length := by
+      intro i a hi he
+      obtain ⟨a0, h1, h2, _⟩ := g.val i hi
+      rw [h1] at he; injection he with he; subst he; exact h2
+    intro i j a b hi hj hea heb ho
+    simp only [hn] at hi hj
+    by_cases hil : i < w.vals.length <;> by_cases hjl : j < w.vals.length
+    · rw [oldv i hil] at hea; rw [oldv j hjl] at heb
+      rw [origin_append_lt _ (addr_old i a hil hea), origin_append_lt _ (addr_old j b hjl heb)] at ho
+      rw [O_append_lt (i := i) _ (by rw [g.lo]; exact hil), O_append_lt (i := j) _ (by rw [g.lo]; exact hjl)]
+      exact g.inj i j a b hil hjl hea heb ho
+    · have : j = w.vals.length := by omega
+      subst this
+      rw [oldv i hil] at hea; rw [newv, hx] at heb; injection heb with heb; subst heb
+      rw [origin_append_lt _ (addr_old i a hil hea)] at ho
+      rw [O_append_lt (i := i) _ (by rw [g.lo]; exact hil)]
+      have := hinj i a hil hea ho.symm
+      rw [← this]; rw [show w.vals.length = os.length from g.lo.symm, O_append_len]
+    · have : i = w.vals.length := by omega
+      subst this
+      rw [oldv j hjl] at heb; rw [newv, hx] at hea; injection hea with hea; subst hea
+      rw [origin_append_lt _ (addr_old j b hjl heb)] at ho
+      rw [O_append_lt (i := j) _ (by rw [g.lo]; exact hjl)]
+      have := hinj j b hjl heb ho
+      rw [← this]; rw [show w.vals.length = os.length from g.lo.symm, O_append_len]
+    · have h1 : i = w.vals.length := by omega
+      have h2 : j = w.vals.length := by omega
+      rw [h1, h2]
+
 end GErrorIs
